@@ -158,17 +158,22 @@ Proof.
   intros I E. pose proof I as [V _]. destruct (cinv_nodup n s I) as [Nf Ne]. destruct l; cbn [cstep] in E.
   - (* COpen *) unfold c_open in E. destruct (tbl s (key false sid)); [discriminate |]. inversion E; subst.
     split; [apply TV_new_obj; exact V |]. intro x. rewrite CW_new_obj. cbn. lia.
-  - (* CWrite *) unfold c_write in E. destruct (usable o s) eqn:U; cbn [negb] in E; [| discriminate].
+  - (* CWrite *) unfold c_write in E.
+    set (ac := valid o s && oclosed (objs s o) && Nat.eqb (ocpc (objs s o)) 6) in *.
+    destruct (ac && cgx s); [inversion E; subst; split; [exact V | reflexivity] |].
+    destruct (usable o s || ac) eqn:U; cbn [negb] in E; [| discriminate].
     destruct (subsetb new (cfree s) && nodupb new) eqn:C; cbn [negb] in E; [| discriminate].
     apply andb_true_iff in C. destruct C as [C1 C2]. inversion E; subst; clear E.
     split; [tvf; exact V |]. intro x.
-    assert (Hv : (o < nobjs (cset_free_ext (minus_list (cfree s) new) (cext s) s))%nat) by (apply usable_lt; exact U).
+    assert (Hv : (o < nobjs (cset_free_ext (minus_list (cfree s) new) (cext s) s))%nat).
+    { apply orb_true_iff in U. destruct U as [U|U]; [apply usable_lt; exact U |].
+      unfold ac in U. rewrite !andb_true_iff in U. apply valid_lt, U. }
     use_obj Hv. pose proof (CW_set_free_ext x (minus_list (cfree s) new) (cext s) s) as F.
     pose proof (cnt_minus x (cfree s) new Nf C2 C1) as M.
     change (objs (cset_free_ext (minus_list (cfree s) new) (cext s) s) o) with (objs s o) in HW.
     unfold oslots in HW. rewrite ?cnt_app in HW. lia.
   - (* CFlush *) unfold c_flush in E. set (v := objs s o) in *.
-    destruct (valid o s && Nat.eqb (ocpc v) 0) eqn:U; cbn [negb] in E; [| discriminate].
+    destruct (valid o s && (Nat.eqb (ocpc v) 0 || Nat.eqb (ocpc v) 6)) eqn:U; cbn [negb] in E; [| discriminate].
     apply andb_true_iff in U. destruct U as [U _]. apply valid_lt in U.
     destruct (sumz sizes <=? 0); [inversion E; subst; split; [exact V | reflexivity] |].
     destruct (oclosed v || ohalf v).
@@ -273,7 +278,7 @@ Proof.
   destruct (cstep_W n s l s' I E) as [K H]. split; [exact K |]. intro x. rewrite H. apply I.
 Qed.
 
-Lemma cinit_inv f n qc : CInv n (cinit f n qc).
+Lemma cinit_inv f g n qc : CInv n (cinit f g n qc).
 Proof.
   split; [intros k o H; discriminate |]. intro x. rewrite <- cnt_call. unfold call_slots. cbn [cinit cfree cext cleaked cq_srv cq_cli loop_c loop_s].
   unfold obj_slots. cbn [cinit nobjs seq flat_map qslots lslots]. rewrite !app_nil_r. reflexivity.
@@ -283,7 +288,7 @@ Lemma crun_inv n h : forall s, CInv n s -> CInv n (crun s h).
 Proof. induction h as [|l t IH]; intros s I; cbn [crun]; [exact I | apply IH, cstep'_inv, I]. Qed.
 
 (* every slot is in exactly one location, in every interleaving *)
-Theorem cinv_thm f n qc h : Permutation (call_slots (crun (cinit f n qc) h)) (iota n).
+Theorem cinv_thm f g n qc h : Permutation (call_slots (crun (cinit f g n qc) h)) (iota n).
 Proof. apply cinv_perm, crun_inv, cinit_inv. Qed.
 
 (* ================= quiescence ================= *)
@@ -294,7 +299,7 @@ Definition oj (v : obj) (lc ls : lstate) (o : nat) : Prop :=
   ((5 <= ocpc v)%nat -> osendb v = []).
 
 Definition CJ (s : cst) : Prop :=
-  cfx s = true /\ cleaked s = [] /\ forall o, oj (objs s o) (loop_c s) (loop_s s) o.
+  (cfx s = true /\ cgx s = true) /\ cleaked s = [] /\ forall o, oj (objs s o) (loop_c s) (loop_s s) o.
 
 Lemma oj_cpc0 v lc ls o : ocpc v = O -> oj v lc ls o.
 Proof. intro H. unfold oj. rewrite H. repeat split; intros; lia. Qed.
@@ -308,10 +313,10 @@ Lemma oj_same v v' lc ls o :
 Proof. intros A B C D E F H. unfold oj in *. rewrite A, B, C, D, E, F. exact H. Qed.
 
 Lemma CJ_frame s s' :
-  cfx s' = cfx s -> cleaked s' = cleaked s -> objs s' = objs s -> loop_c s' = loop_c s -> loop_s s' = loop_s s ->
+  cfx s' = cfx s -> cgx s' = cgx s -> cleaked s' = cleaked s -> objs s' = objs s -> loop_c s' = loop_c s -> loop_s s' = loop_s s ->
   CJ s -> CJ s'.
-Proof. intros A B C D E (F & G & H). unfold CJ. rewrite A, B, C, D, E. auto. Qed.
-Ltac cjf := eapply CJ_frame; [reflexivity | reflexivity | reflexivity | reflexivity | reflexivity |].
+Proof. intros A A' B C D E (F & G & H). unfold CJ. rewrite A, A', B, C, D, E. auto. Qed.
+Ltac cjf := eapply CJ_frame; [reflexivity | reflexivity | reflexivity | reflexivity | reflexivity | reflexivity |].
 
 Lemma CJ_set_obj o nv s : CJ s -> oj nv (loop_c s) (loop_s s) o -> CJ (set_obj o nv s).
 Proof.
@@ -376,14 +381,17 @@ Qed.
 
 Lemma cstep_J s l s' : CJ s -> cstep s l = Some s' -> CJ s'.
 Proof.
-  intros J E. pose proof J as (Fx & Lk & Hj). destruct l; cbn [cstep] in E.
+  intros J E. pose proof J as ((Fx & Gx) & Lk & Hj). destruct l; cbn [cstep] in E.
   - unfold c_open in E. destruct (tbl s _); [discriminate |]. inversion E; subst. apply CJ_new_obj; [exact J | reflexivity].
-  - unfold c_write in E. destruct (usable o s) eqn:U; cbn [negb] in E; [| discriminate]. destruct (_ && _); cbn [negb] in E; [| discriminate].
+  - unfold c_write in E. rewrite Gx, andb_true_r in E.
+    destruct (valid o s && oclosed (objs s o) && Nat.eqb (ocpc (objs s o)) 6); [inversion E; subst; exact J |].
+    rewrite orb_false_r in E. destruct (usable o s) eqn:U; cbn [negb] in E; [| discriminate]. destruct (_ && _); cbn [negb] in E; [| discriminate].
     inversion E; subst. apply usable_cpc in U. apply CJ_set_obj; [cjf; exact J | apply oj_cpc0; exact U].
-  - unfold c_flush in E. set (v := objs s o) in *. destruct (valid o s && Nat.eqb (ocpc v) 0) eqn:U; cbn [negb] in E; [| discriminate].
-    apply andb_true_iff in U. destruct U as [_ U]. apply Nat.eqb_eq in U.
+  - unfold c_flush in E. set (v := objs s o) in *. destruct (valid o s && (Nat.eqb (ocpc v) 0 || Nat.eqb (ocpc v) 6)) eqn:U; cbn [negb] in E; [| discriminate].
     destruct (_ <=? 0); [inversion E; subst; exact J |].
-    assert (S1 : forall fb, CJ (set_obj o (sent v fb) s)) by (intro fb; apply CJ_set_obj; [exact J | apply oj_cpc0; exact U]).
+    assert (S1 : forall fb, CJ (set_obj o (sent v fb) s)).
+    { intro fb. apply CJ_set_obj; [exact J |]. destruct (Hj o) as (A & B & C & D). fold v in A, B, C, D.
+      unfold oj, sent, with_flags, upd_obj. cbn [ocpc oclosed opend orecvb opinned osendb]. exact (conj A (conj B (conj C (fun _ => eq_refl)))). }
     destruct (oclosed v || ohalf v); [inversion E; subst; cjf; apply S1 |].
     destruct (osheap v || oinfb v); [inversion E; subst; cjf; cjf; apply S1 |].
     destruct (_ >=? _); inversion E; subst; cjf; cjf; apply S1.
@@ -391,7 +399,7 @@ Proof.
   - unfold c_loop_add in E. destruct (loop_of e s) as [|o p|] eqn:L; try discriminate.
     destruct (valid o s); cbn [negb] in E; [| discriminate]. inversion E; subst; clear E.
     set (v := objs s o). destruct (Hj o) as (A & B & C & D). fold v in A, B, C, D.
-    split; [exact Fx | split; [exact Lk |]]. intro j. cbn [set_loop set_obj objs loop_c loop_s].
+    split; [exact (conj Fx Gx) | split; [exact Lk |]]. intro j. cbn [set_loop set_obj objs loop_c loop_s].
     destruct (Nat.eq_dec j o) as [->|N].
     + rewrite updn_eq. unfold oj. cbn [with_flags upd_obj ocpc oclosed opend orecvb opinned osendb]. refine (conj A (conj _ (conj C D))).
       intros _. destruct e; [right; right | right; left]; reflexivity.
@@ -452,8 +460,8 @@ Proof.
   destruct (cstep s l) as [s'|] eqn:E; [eapply cstep_J; eauto | exact J].
 Qed.
 
-Lemma cinit_J n qc : CJ (cinit true n qc).
-Proof. split; [reflexivity | split; [reflexivity |]]. intro o. apply oj_cpc0. reflexivity. Qed.
+Lemma cinit_J n qc : CJ (cinit true true n qc).
+Proof. split; [split; reflexivity | split; [reflexivity |]]. intro o. apply oj_cpc0. reflexivity. Qed.
 
 (* every stream object has been closed and its close() has returned, both event loops are between
    elements, nothing is in flight, the application holds nothing *)
@@ -462,12 +470,12 @@ Definition cfinished (s : cst) : Prop :=
   forall o, (o < nobjs s)%nat -> ocpc (objs s o) = 6%nat.
 
 Theorem cfinished_thm n qc h :
-  let s := crun (cinit true n qc) h in
+  let s := crun (cinit true true n qc) h in
   cfinished s -> Permutation (cfree s) (iota n) /\ length (cfree s) = n.
 Proof.
   intros s (E1 & E2 & E3 & E4 & E5 & E6).
   assert (P : Permutation (cfree s) (iota n)).
-  { pose proof (cinv_thm true n qc h) as P. fold s in P. unfold call_slots in P.
+  { pose proof (cinv_thm true true n qc h) as P. fold s in P. unfold call_slots in P.
     destruct (crun_J h _ (cinit_J n qc)) as (_ & Lk & Hj). fold s in Lk, Hj.
     rewrite E1, E2, E3, E4, E5, Lk in P. cbn [qslots lslots flat_map app] in P.
     assert (Z0 : obj_slots s = []).
